@@ -99,8 +99,6 @@ Edited(r, E) ==
 
 (* the output file for an input file *)
 AnnotateOut(recs, E) ==
-  LET RECURSIVE F(_)
-      F(i) == IF i > Len(recs) THEN <<>>
-              ELSE (IF Survives(recs[i], E) THEN <<Edited(recs[i], E)>> ELSE <<>>) \o F(i + 1)
-  IN F(1)
+  LET kept == SelectSeq(recs, LAMBDA r : Survives(r, E))
+  IN  [i \in 1..Len(kept) |-> Edited(kept[i], E)]
 =============================================================================
